@@ -57,6 +57,8 @@ def fixed_cases(tier):
     # run-length and run-count matrices with every unsafe-site feature on, in the table modes and in the defaults
     allf = ["try_from", "TryFrom", "from_str", "FromStr", "MIN", "MAX", "next", "next_back", "iter", "range", "as_str", "names"]
     specs = C.run_length_specs({(1, 64), (64, 64), (65, 64), (63, 65), (128, 128), (129, 63), (256, 63), (257, 65)}) + C.run_count_specs([64, 65, 128, 129, 256, 257])
+    for spec in C.zero_first_specs():
+        out.append({"spec": spec, "cfg": S.simple_config(allf, {"iter": "table", "as_str": "table", "from_str": "table", "FromStr": "table"}), "seed": 14})
     for spec in C.block_specs():
         out.append({"spec": spec, "cfg": S.simple_config(["try_from", "TryFrom", "MIN", "MAX", "next", "next_back", "iter", "range"]), "seed": 13})
     for spec in specs:
